@@ -86,6 +86,7 @@ const (
 	kRead = iota
 	kWrite
 	kCall
+	kLeak // a reference to a package-level object leaves the function (returned, stored, passed on)
 )
 
 type site struct {
@@ -438,6 +439,35 @@ func (a *analyzer) elemLocs(x ssa.Value) []string {
 	return out
 }
 
+// refLike: values of this type can give access to shared memory.
+func refLike(t types.Type) bool {
+	switch t.Underlying().(type) {
+	case *types.Pointer, *types.Map, *types.Slice, *types.Chan, *types.Signature, *types.Interface:
+		return true
+	}
+	return false
+}
+
+// globalRefs: the package-level variables (of the packages) that v may point to / into, or whose
+// reference-like content v may be.  A reference loaded from a *field* of such an object is named
+// by the field (type, field), not by the variable: only the first level is seen.
+func (a *analyzer) globalRefs(v ssa.Value) []string {
+	if !refLike(v.Type()) {
+		return nil
+	}
+	if _, isFn := v.(*ssa.Function); isFn {
+		return nil
+	}
+	var out []string
+	for o := range a.origins(v) {
+		if o != fresh && a.globals[base(o)] {
+			out = append(out, o)
+		}
+	}
+	sort.Strings(out)
+	return out
+}
+
 // ---------------------------------------------------------------------------------------------
 // lock regions
 
@@ -599,6 +629,26 @@ func (a *analyzer) collect(fi *fnInfo) {
 			fi.sites = append(fi.sites, site{kind: kind, tgt: t, held: held[ins], block: ins.Block()})
 		}
 	}
+	leak := func(ins ssa.Instruction, how string, v ssa.Value) {
+		for _, g := range a.globalRefs(v) {
+			fi.sites = append(fi.sites, site{kind: kLeak, tgt: g, held: how, block: ins.Block()})
+		}
+	}
+	// arguments handed to a function of the packages (what a foreign function does with its
+	// arguments is invisible anyway)
+	passArgs := func(ins ssa.Instruction, c *ssa.CallCommon) {
+		if _, ok := c.Value.(*ssa.Builtin); ok {
+			return
+		}
+		if f := c.StaticCallee(); f != nil {
+			if _, ours := a.byFn[f]; !ours {
+				return
+			}
+		}
+		for _, arg := range c.Args {
+			leak(ins, "passed on", arg)
+		}
+	}
 	edge := func(ins ssa.Instruction, f *ssa.Function) {
 		if f == nil {
 			return
@@ -612,12 +662,23 @@ func (a *analyzer) collect(fi *fnInfo) {
 			switch x := ins.(type) {
 			case *ssa.Store:
 				add(ins, kWrite, a.ptrLocs(x.Addr, map[ssa.Value]bool{})...)
+				if a.allocOf(x.Addr, 0) == nil { // a store into a local variable is followed by origins()
+					leak(ins, "stored", x.Val)
+				}
+			case *ssa.Return:
+				for _, r := range x.Results {
+					leak(ins, "returned", r)
+				}
+			case *ssa.Send:
+				leak(ins, "sent", x.X)
 			case *ssa.UnOp:
 				if x.Op == token.MUL {
 					add(ins, kRead, a.ptrLocs(x.X, map[ssa.Value]bool{})...)
 				}
 			case *ssa.MapUpdate:
 				add(ins, kWrite, a.elemLocs(x.Map)...)
+				leak(ins, "stored", x.Value)
+				leak(ins, "stored", x.Key)
 			case *ssa.Lookup:
 				if _, ok := x.X.Type().Underlying().(*types.Map); ok {
 					add(ins, kRead, a.elemLocs(x.X)...)
@@ -638,10 +699,13 @@ func (a *analyzer) collect(fi *fnInfo) {
 				}
 			case *ssa.Go:
 				fi.goStmts++
+				passArgs(ins, &x.Call)
 				a.callSite(fi, ins, &x.Call, add, edge)
 			case *ssa.Defer:
+				passArgs(ins, &x.Call)
 				a.callSite(fi, ins, &x.Call, add, edge)
 			case *ssa.Call:
+				passArgs(ins, &x.Call)
 				a.callSite(fi, ins, &x.Call, add, edge)
 			}
 		}
@@ -784,7 +848,7 @@ func (a *analyzer) tag(cfg *Config) []int {
 		}
 		for i := range fi.sites {
 			s := &fi.sites[i]
-			if s.allow != 0 {
+			if s.allow != 0 || s.kind == kLeak {
 				continue
 			}
 			hit := false
@@ -1002,6 +1066,9 @@ func main() {
 			if s.kind != kCall {
 				locSet[s.tgt] = true
 			}
+			if s.kind == kLeak {
+				continue // `held` carries the manner of the leak, not mutexes
+			}
 			for _, h := range splitHeld(s.held) {
 				mtxSet[h[0]] = true
 			}
@@ -1132,7 +1199,7 @@ func main() {
 			}
 			for _, g := range setList(reach) {
 				for _, x := range a.fns[g].sites {
-					if x.kind != kCall && x.allow == 0 && x.tgt == w.tgt && !protects(w.held, x.held) && len(diags) < 12 {
+					if (x.kind == kRead || x.kind == kWrite) && x.allow == 0 && x.tgt == w.tgt && !protects(w.held, x.held) && len(diags) < 12 {
 						diags = append(diags, fmt.Sprintf("ReaderDiscipline: write of %s in %s holding {%s} and %s of it in %s holding {%s} share no mutex held exclusively on one side",
 							w.tgt, a.fns[f].name, w.held, []string{"read", "write"}[x.kind], a.fns[g].name, x.held))
 					}
@@ -1201,7 +1268,7 @@ func main() {
 	for _, g := range guards {
 		for _, fi := range a.fns {
 			for _, s := range fi.sites {
-				if s.kind == kCall || locID[s.tgt] != g.loc {
+				if (s.kind != kRead && s.kind != kWrite) || locID[s.tgt] != g.loc {
 					continue
 				}
 				has, excl := heldHas(s.held, mtxs[g.mtx])
@@ -1453,7 +1520,7 @@ func comma(i, n int) string {
 }
 
 func (a *analyzer) dump(cfg *Config, matched []int, reach, initOnly map[int]bool) {
-	kinds := []string{"read ", "write", "call "}
+	kinds := []string{"read ", "write", "call ", "leak "}
 	for i, fi := range a.fns {
 		flags := ""
 		if reach[i] {
